@@ -140,7 +140,7 @@ def override_choices(prog, rng, pool, max_sets):
 
 
 def run_property(prop, tier, configs, sites_fn, owned, nontrivial, rule, module='Conform_Pass', extra_jobs=None,
-                 shard_size=3000, variants=()):
+                 shard_size=3000, variants=(), extra_stage=None):
     """Generic driver: enumerate (TLC) -> render/parse/apply passes (real code) -> validate (TLC)."""
     impl.guard_repo()
     rep = core.Report(prop, tier)
@@ -197,5 +197,7 @@ def run_property(prop, tier, configs, sites_fn, owned, nontrivial, rule, module=
                     'failing_clauses': verdicts.get(r['id'], {}).get('clauses', [])})
     rep.assumptions += ['harness/project.py and harness/render.py are trusted translations',
                         'meaning is compared up to the Seq-in-Seq / Par-in-Par identification (DESIGN B.3)']
+    if extra_stage:
+        extra_stage(rep, wd, rng)
     core.cleanup(prop)
     return rep.finish()
